@@ -20,6 +20,7 @@ import Upnp.Lemmas.C12Mon
 import Upnp.Lemmas.C12Rep
 import Upnp.Lemmas.C12Yield
 import Upnp.Lemmas.C12Lapse
+import Upnp.Lemmas.C12Zeno
 import Upnp.Spec.C12
 namespace Upnp.C12
 open Upnp PyDict
@@ -612,6 +613,45 @@ example :
       = [.cb 1250 0 0 false] := by
   decide
 
+/-! ### Zeno-freedom: with long timeouts every wait stays within its budget -/
+
+/-- every reaction of the publisher grants a timeout above the tolerance (for an infinite or absent TIMEOUT
+    header the client uses the requested one, which is above the tolerance by `gen_constants`).  Decidable;
+    the property's quantifier `61..1800 s, infinite, absent` satisfies it. -/
+def LongTimeouts (script : List Entry) (dflt : Entry) : Prop := LongS genCfg script dflt
+
+instance (script : List Entry) (dflt : Entry) : Decidable (LongTimeouts script dflt) := by
+  unfold LongTimeouts; infer_instance
+
+/-- **budget_ok_of_long_timeouts** (Zeno-freedom of the model's wait loop): if every granted timeout exceeds
+    the tolerance, then — whatever else the publisher does (refusals, unreachability, new SIDs, any
+    latencies) — consecutive renewal rounds start at least a second of virtual time apart, so no `wait`
+    of any history exhausts its await budget: virtual time always advances. -/
+theorem budget_ok_of_long_timeouts (n : Nat) (script : List Entry) (dflt : Entry) (ops : List Op)
+    (hl : LongTimeouts script dflt) : BudgetOk n script dflt ops = true := by
+  have hrun : ZRun genCfg (run genCfg n script dflt ops) := by
+    unfold run
+    suffices H : ∀ st, Core st → TaskOk st → ZRun genCfg st → ZRun genCfg (ops.foldl (step genCfg n) st) from
+      H _ (Core.init script dflt) (by simp [TaskOk, init]) ⟨rfl, ⟨hl, by simp [init]⟩⟩
+    induction ops with
+    | nil => intro st _ _ hi; exact hi
+    | cons op r ih =>
+      intro st h ht hi
+      have hc := step_core genCfg gen_shapes.2.1 n st op h ht
+      refine ih _ hc.1 hc.2 ?_
+      cases op with
+      | sub auto => exact z_doSub genCfg n auto st h hi
+      | wait d => exact z_doWait genCfg gen_shapes.1 gen_shapes.2.1 d st h ht hi
+      | unsub => exact z_doUnsub genCfg gen_shapes.1 gen_shapes.2.1 st h ht hi
+  unfold BudgetOk
+  rw [hrun.halted]; rfl
+
+/-- **yield_trace_long**: for every history against a publisher that grants timeouts above the tolerance the
+    trace contains no `spin` — the renewal loop always yields and virtual time always advances. -/
+theorem yield_trace_long (n : Nat) (script : List Entry) (dflt : Entry) (ops : List Op)
+    (hl : LongTimeouts script dflt) : yieldBad (run genCfg n script dflt ops).trace = [] :=
+  yield_trace n script dflt ops (budget_ok_of_long_timeouts n script dflt ops hl)
+
 /-! ### the run-time judge accepts every model trace -/
 
 /-- **judge_accepts_model**: the predicate the driver evaluates on the implementation's trace
@@ -625,6 +665,19 @@ theorem judge_accepts_model (n : Nat) (script : List Entry) (dflt : Entry) (ops 
   unfold ok violations
   rw [all_or_nothing_trace, lapse_trace, report_trace, clean_trace, yield_trace n script dflt ops hb]
   rfl
+
+/-- **judge_accepts_model_long**: the same for every publisher that grants timeouts above the tolerance
+    (hypothesis on the publisher script only): the run-time judge accepts every model trace. -/
+theorem judge_accepts_model_long (n : Nat) (script : List Entry) (dflt : Entry) (ops : List Op)
+    (hl : LongTimeouts script dflt) :
+    ok n genCfg.tol genCfg.subTimeout (run genCfg n script dflt ops).trace = true :=
+  judge_accepts_model n script dflt ops (budget_ok_of_long_timeouts n script dflt ops hl)
+
+/-- non-vacuity of `LongTimeouts` (61 s, 1800 s, infinite, absent); 60 s is the excluded point (its behaviour
+    on the real code is recorded by the harness' `zeno_probe`) -/
+example : LongTimeouts [⟨.ok, .sec 61, 0⟩, ⟨.refuse, .sec 1800, 300000⟩, ⟨.newSid, .infinite, 0⟩] ⟨.unreach, .absent, 0⟩
+    ∧ ¬ LongTimeouts [] ⟨.ok, .sec 60, 0⟩ := by
+  decide
 
 /-- non-vacuity: a history with a refused renewal, a successful fall-back, an unreachable publisher and an
     unsubscribe during an in-flight renewal stays within budget and is accepted -/
